@@ -415,7 +415,98 @@ def check_columns(cols, paths, rows, times, V, where):
     return True
 
 
+def check_alias(nested, acc):
+    """Rows made of plain JSON values only, whose list / dictionary
+    values are THE SAME objects at every emit, changed in place in between
+    (what an in-place updater does to a store's value): every timepoint
+    keeps the contents it was emitted with, through every accessor."""
+    case = {'family': 'alias', 'nested': nested}
+    acc.case(key=('alias', nested), outcome='alias')
+    V = lambda rule, fp, msg: acc.violate(  # noqa
+        fw.violation(rule, fp, msg, case))
+    log, d = [], {'k': 0}
+    em = RAMEmitter({'type': 'timeseries'})
+    times = [0.0, 1.0, 2.0]
+    want = {}
+    for i, t in enumerate(times):
+        inner = {'log': log, 'd': d}
+        row = {'cell': inner, 'n': i} if nested else dict(inner, n=i)
+        em.emit({'table': 'history', 'data': dict(row, time=t)})
+        want[t] = {'log': list(range(i)), 'k': i, 'n': i}
+        log.append(i)
+        d['k'] = i + 1
+    pre = ('cell',) if nested else ()
+    for name, raw in (('get_data', em.get_data()),
+                      ('get_data_deserialized', em.get_data_deserialized()),
+                      ('query', em.get_data([pre + ('log',),
+                                             pre + ('d',), ('n',)]))):
+        for t in times:
+            got = {'log': get(raw.get(t, {}), pre + ('log',)),
+                   'k': get(raw.get(t, {}), pre + ('d', 'k')),
+                   'n': get(raw.get(t, {}), ('n',))}
+            if got != want[t]:
+                V('C18.raw', 'earlier-timepoint-changed',
+                  f'{name}: at t={t} the history reads {got}, it was '
+                  f'emitted as {want[t]} (the emitted list / dictionary '
+                  f'was changed in place afterwards)')
+                return
+    for name, flat in (('get_path_timeseries', em.get_path_timeseries()),
+                       ('path_timeseries_from_data',
+                        path_timeseries_from_data(em.get_data()))):
+        got = (flat.get(pre + ('log',)), flat.get(pre + ('d', 'k')),
+               flat.get(('n',)))
+        exp = ([want[t]['log'] for t in times],
+               [want[t]['k'] for t in times], [want[t]['n'] for t in times])
+        if got != exp:
+            V('C18.timeseries', 'earlier-timepoint-changed',
+              f'{name}: columns (log, d.k, n) = {got}, expected {exp}')
+            return
+
+
+def check_empty_branch(order, depth, acc):
+    """A dictionary-valued entry that is {} at every time, before /
+    between / after the other variables of its store: the path timeseries
+    files every variable under its own path."""
+    case = {'family': 'empty-branch', 'order': order, 'depth': depth}
+    acc.case(key=('empty-branch', order, depth), outcome='empty-branch')
+    times = [0.0, 1.0]
+    rows = {}
+    for i, t in enumerate(times):
+        items = {'registry': {}, 'mass': 10 + i, 'size': 20 + i}
+        cell = {k: items[k] for k in order}
+        for _ in range(depth):
+            cell = {'in': cell}
+        rows[t] = {'cell': cell, 'z': i}
+    pre = ('cell',) + ('in',) * depth
+    want = {pre + ('mass',): [10, 11], pre + ('size',): [20, 21],
+            ('z',): [0, 1]}
+    em = RAMEmitter({'type': 'timeseries'})
+    for t in times:
+        em.emit({'table': 'history', 'data': dict(rows[t], time=t)})
+    for name, flat in (
+            ('get_path_timeseries', em.get_path_timeseries()),
+            ('path_timeseries_from_data', path_timeseries_from_data(rows)),
+            ('path_timeseries_from_embedded_timeseries',
+             path_timeseries_from_embedded_timeseries(
+                 timeseries_from_data(rows)))):
+        cols = {k: v for k, v in flat.items() if k != 'time'
+                and k != pre + ('registry',)}
+        if cols != want:
+            acc.violate(fw.violation(
+                'C18.timeseries', 'empty-branch-misfiles-variables',
+                f'{name}: rows {rows} give the columns {cols}, expected '
+                f'{want}', case))
+            return
+
+
 def run_job(job, acc):
+    if job[0] == 'special':
+        for nested in (False, True):
+            check_alias(nested, acc)
+        for order in itertools.permutations(('registry', 'mass', 'size')):
+            for depth in (0, 1):
+                check_empty_branch(order, depth, acc)
+        return
     shape_idx, n_times, max_dev, limit = job
     FULL_LIMIT['v'] = limit
     shape = tree_shapes()[shape_idx]
@@ -442,11 +533,16 @@ def run(ctx):
     jobs = [(i, t, b['deviating_cells'], 512 if ctx.quick else 4096)
             for i in range(len(tree_shapes()))
             for t in range(1, b['times'] + 1)]
+    jobs.append(('special',))
     return ctx.map(run_job, jobs, chunk=1)
 
 
 def replay(case):
     acc = fw.Acc()
+    if case.get('family') in ('alias', 'empty-branch'):
+        run_job(('special',), acc)
+        return [v for exs in acc.viol_examples.values() for v in exs
+                if v['case'] == case]
     shape = tree_shapes()[case['shape']]
     paths = leaf_paths(shape)
     check_history(case['shape'], paths, case['times'],
@@ -459,3 +555,6 @@ RULE += (
 
 RULE += (
     ' Shapes of depth 3 (g.h.{a, ab}) and the zero quantity 0.0 fg as a cell value: a query for a store plus one of its variables returns every variable once, falsy ones included.')
+
+RULE += (
+    ' Alias family: rows of plain JSON values whose list / dictionary values are the same objects at every emit and are changed in place in between - every timepoint keeps what it was emitted with (raw data, queries, path timeseries). Empty-branch family: a {} entry before / between / after the variables of its store (also one level deeper) does not misfile the other columns.')
